@@ -44,6 +44,8 @@ let print_tokens buf ts =
 let () =
   let ic = open_in Sys.argv.(1) in
   let fx = Sys.argv.(2) = "1" in
+  let flag i = Array.length Sys.argv > i && Sys.argv.(i) = "1" in
+  let fhex = flag 3 and fexp = flag 4 and farrow = flag 5 in
   let buf = Buffer.create (1 lsl 20) in
   (try
      while true do
@@ -51,7 +53,7 @@ let () =
        (match String.split_on_char ' ' line with
         | [ mode; h ] -> (
           let cas = mode.[1] = '1' in
-          match lex cas (unhex h) with
+          match lex { o_cas = cas; o_hex = fhex; o_exp = fexp; o_arrow = farrow } (unhex h) with
           | Err -> Buffer.add_string buf "ERR"
           | Unsup -> Buffer.add_string buf "UNSUP"
           | OutOfFuel -> Buffer.add_string buf "FUEL"
